@@ -32,19 +32,17 @@ OPKW = ("query", "mutation", "subscription", "fragment")
 
 # ------------------------------------------------------------------------------------------------ helpers
 def load_fragment_findings(ctx):
-    """findings.d/C05.json is this check's own fragment of known-findings.json (merged by the coordinator);
-    until it is merged the entries are honoured from the fragment."""
-    path = os.path.join(lib.VERIF, "findings.d", "C05.json")
-    known = list(ctx.known())
-    have = {(k.get("property"), k.get("key")) for k in known}
+    """findings.d/C05.json is this check's own fragment of known-findings.json.  Its entries take precedence over the
+    merged file for the same key (the coordinator swaps the fragment when a repair is committed: a `fixed` entry
+    suppresses nothing, so a defect that is still there after its fix is a VIOLATION)."""
+    path = os.environ.get("VERIF_C05_FINDINGS") or os.path.join(lib.VERIF, "findings.d", "C05.json")   # override: testing a fixed worktree
     try:
         with open(path) as f:
-            for k in json.load(f):
-                if (k.get("property"), k.get("key")) not in have:
-                    known.append(k)
+            mine = json.load(f)
     except FileNotFoundError:
-        pass
-    ctx._known = known
+        mine = []
+    keys = {(k.get("property"), k.get("key")) for k in mine}
+    ctx._known = [k for k in ctx.known() if (k.get("property"), k.get("key")) not in keys] + mine
 
 
 def b64(s):
@@ -317,17 +315,25 @@ def edits_schema_description(b, toks):
 
 
 CAUSES = [
+    ("rt:block-string:offset-after-leading-quote-or-backslash", edits_block_offset),
+    ("rt:block-string:surrounding-whitespace-trimmed", edits_block_trim),
+    ("rt:operation:anonymous-query-with-directives", edits_anonymous_query_directives),
     ("rt:type-system:extension-implements-dropped", edits_extension_implements),
     ("rt:type-system:schema-description-dropped", edits_schema_description),
-    ("rt:operation:anonymous-query-with-directives", edits_anonymous_query_directives),
-    ("rt:block-string:surrounding-whitespace-trimmed", edits_block_trim),
-    ("rt:block-string:offset-after-leading-quote-or-backslash", edits_block_offset),
 ]
 
 
 def apply_edits(b, edits):
+    """apply [(start, end, replacement)].  An edit that lies inside the span rewritten by another one is dropped (so is an
+    insertion at the very end of such a span); of two edits of the same span the removal wins."""
+    edits = sorted(set(edits), key=lambda x: (x[0], -(x[1] - x[0]), len(x[2])))
+    kept = []
+    for s, e, r in edits:
+        if kept and kept[-1][1] > kept[-1][0] and (s < kept[-1][1] or (s == e == kept[-1][1])):
+            continue
+        kept.append((s, e, r))
     out = b
-    for s, e, r in sorted(edits, reverse=True):
+    for s, e, r in sorted(kept, reverse=True):
         out = out[:s] + r + out[e:]
     return out
 
@@ -444,28 +450,29 @@ class Judge:
         self.pending = []
         if not uniq:
             return
+        import itertools
         cases, plan = [], []
         for b, (source, cls, det, known_valid) in uniq.items():
             toks = lex(b)
             edits = [(name, fn(b, toks)) for name, fn in CAUSES]
             edits = [(n, e) for n, e in edits if e]
-            entry = {"b": b, "source": source, "cls": cls, "det": det, "self": len(cases), "single": [], "all": None, "valid": known_valid}
+            entry = {"b": b, "source": source, "cls": cls, "det": det, "self": len(cases), "subsets": [], "valid": known_valid}
             cases.append({"id": "a%d" % len(cases), "kind": "text", "b64": b64(b), "gq": "any"})
-            for n, e in edits:
-                entry["single"].append((n, len(cases)))
-                cases.append({"id": "a%d" % len(cases), "kind": "text", "b64": b64(apply_edits(b, e))})
-            if len(edits) > 1:
-                entry["all"] = len(cases)
-                cases.append({"id": "a%d" % len(cases), "kind": "text", "b64": b64(apply_edits(b, [x for _, e in edits for x in e]))})
+            # every non-empty subset of the applicable causes, smallest first, CAUSES order (most local repair first) within a size
+            for size in range(1, len(edits) + 1):
+                for sub in itertools.combinations(edits, size):
+                    entry["subsets"].append(([n for n, _ in sub], len(cases)))
+                    cases.append({"id": "a%d" % len(cases), "kind": "text", "b64": b64(apply_edits(b, [x for _, e in sub for x in e]))})
             plan.append(entry)
-        recs, _ = run_driver(ctx, self.binary, cases, "attribute")
+        recs, _ = run_driver_sharded(ctx, self.binary, cases, "attribute", 4)
 
         def fine(idx):
             r = recs.get(idx)
             if r is None:
                 return False
             bb = r["base"]
-            return not bb["panic"] and not bb["oob"] and (not bb["acc"] or bb["rt"] == "ok")
+            # the repaired text must still be accepted (a repair that merely makes the parser reject it explains nothing)
+            return not bb["panic"] and not bb["oob"] and bb["acc"] and bb["rt"] == "ok"
 
         for e in plan:
             b = e["b"]
@@ -477,15 +484,13 @@ class Judge:
             valid = bool(e["valid"] or (me and me["gq"] == "ok"))     # generated documents and their spellings are valid by construction
             obj = {"kind": "text", "b64": b64(b), "text": shown, "class": e["cls"], "detail": e["det"], "source": e["source"],
                    "valid_graphql": valid}
-            keys = [n for n, idx in e["single"] if fine(idx)]
-            why = "removing the trigger makes the round trip succeed"
-            if not keys and e["all"] is not None and fine(e["all"]):
-                keys = [n for n, _ in e["single"]]
-                why = "removing the triggers of all of them makes the round trip succeed"
+            # the smallest set of known causes whose triggers, once removed, make the round trip succeed
+            keys = next((names for names, idx in e["subsets"] if fine(idx)), [])
+            why = "removing the trigger makes the round trip succeed" if len(keys) == 1 else "removing the triggers of all of them makes the round trip succeed"
             if e["cls"] == "variant-shape":
                 keys = []
             if keys:
-                for k in keys[:1] if len(keys) == 1 else keys:
+                for k in keys:
                     self.report(k, "%s on %s input %r: %s [%s]" % (e["cls"], e["source"], shown[:160], e["det"][:300], why), obj)
                 continue
             if not valid and e["cls"] != "variant-shape":
@@ -616,7 +621,10 @@ def run(ctx):
     depths = [1000, 100000] if quick else [1000, 100000, 1000000, 3000000]
     dcases = []
     for fam in consts["deep"]:
-        for n in ([500, 4000] if fam["slow"] else depths):
+        ns = [500, 4000] if fam["slow"] else list(depths)
+        if quick and fam["name"] == "unclosed-list-value":
+            ns.append(3000000)      # the depth that used to exhaust the goroutine stack (finding crash:stack-overflow), one family only
+        for n in ns:
             dcases.append({"id": "deep-%s-%d" % (fam["name"], n), "kind": "deep", "pre": fam["pre"], "open": fam["open"], "mid": fam["mid"],
                            "close": fam["close"], "post": fam["post"], "n": n, "lims": [[50, 0]]})
     with ThreadPoolExecutor(max_workers=3) as ex:      # the three replays are independent; judged sequentially below
@@ -645,7 +653,7 @@ def run(ctx):
 
     # ---- 3. Go-side judgements ---------------------------------------------------------------------
     stats = {"accepted": 0, "valid_rejected": 0, "gq_rejected": 0, "mutants": 0, "mutants_accepted": 0, "variants": 0, "lim_obs": 0,
-             "rt_ok": 0, "overcount_rejections": 0, "model_stats_match": 0, "model_stats_differ": 0}
+             "rt_ok": 0, "overcount_rejections": 0, "model_stats_match": 0, "model_stats_match_repaired": 0, "model_stats_differ": 0}
     rejected_samples = []
     trace = []
     line_of = {}
@@ -704,7 +712,12 @@ def run(ctx):
             if not lr["acc"] and b["acc"] and not ((lr["L"] > 0 and d["idepth"] > lr["L"]) or (lr["F"] > 0 and d["fields"] > lr["F"])):
                 stats["overcount_rejections"] += 1
             if lr["L"] == 0 and lr["F"] == 0 and lr["acc"] and not d["src"].startswith("sdl"):
-                stats["model_stats_match" if lr["statF"] == d["implF"] else "model_stats_differ"] += 1
+                if lr["statF"] == d.get("implFx"):
+                    stats["model_stats_match_repaired"] += 1
+                elif lr["statF"] == d["implF"]:
+                    stats["model_stats_match"] += 1
+                else:
+                    stats["model_stats_differ"] += 1
 
     # ---- 4. bounded exhaustive enumeration over the specification's alphabet -----------------------
     enum_fail = 0
@@ -804,7 +817,8 @@ def run(ctx):
         "mutants": {"evaluated": stats["mutants"], "accepted": stats["mutants_accepted"]},
         "spelling_variants": stats["variants"],
         "limits": {"observations": stats["lim_obs"], "unsound": len(unsound), "rejected_below_limit_(overcount,allowed)": stats["overcount_rejections"],
-                   "accounting_model_matches_TotalFields": stats["model_stats_match"], "differs": stats["model_stats_differ"]},
+                   "TotalFields_as_repaired_accounting_model": stats["model_stats_match_repaired"],
+                   "TotalFields_only_as_pinned_accounting_model": stats["model_stats_match"], "TotalFields_as_neither": stats["model_stats_differ"]},
         "enumeration": {"alphabet_symbols": enum_summary["k"], "maxlen": enum_summary["maxlen"], "strings": enum_summary["count"],
                         "accepted": enum_summary["accepted"], "failures": enum_fail, "digest": enum_summary["digest"]},
         "deep_nesting": {"cases": len(dcases), "ok": deep_ok, "depths": depths},
